@@ -109,6 +109,39 @@ def finish_only_backlog_family():
                 yield {**sc, 'names': ['A', 'B', 'C'], 'ops': [o for o in ops if o != 'heal'] + ['pass A', 'del A C', 'heal']}
 
 
+def remote_then_local_family():
+    """a completion learned from a peer is still waiting in the producer's queue (the engine thread has not run since the
+    distributed thread handed it to the decider) when a LOCAL change is announced by the same decider: the complex event
+    of the remote completion is produced, but its action is not executed here."""
+    warm = ['sync', 'in A 0', 'sync', 'in A 1', 'sync']
+    for names in (['A', 'B'], ['A', 'B', 'C']):
+        for local in (['in B 0'], ['in B 0', 'in B 1'], ['in B 4']):
+            ops = list(warm) + ['in A 2', 'pass A', 'delq A B'] + local + ['sync', 'heal']
+            yield {'names': names, 'phens': ONEBLOCK, 'cache': 1000, 'ops': ops}
+            ops2 = list(warm) + ['in A 2', 'pass A', 'in B 0', 'delq A B', 'in B 1', 'sync', 'heal']
+            yield {'names': names, 'phens': ONEBLOCK, 'cache': 1000, 'ops': ops2}
+
+
+def newer_first_family():
+    """one message names the same run twice, the NEWER state first: an unacknowledged SYNC (the change went to the
+    backlog) followed by further progress of the same run -- the next SYNC carries the new change and then the older
+    backlog entry, and the receiver is behind both."""
+    for names in (['A', 'B'], ['A', 'B', 'C']):
+        victim = names[-1]
+        others = names[1:-1]
+        for first, then in ((['in A 1'], ['in A 1']), (['in A 1'], ['in A 2']), (['in A 1', 'in A 1'], ['in A 1']), (['in A 1'], ['in A 1', 'in A 2'])):
+            for fail in ('down', 'dup'):
+                ops = ['in A 0', 'sync']
+                for st in first:
+                    ops += [f'{fail} A {victim}', st, 'pass A'] + ([f'del A {victim}'] if fail == 'dup' else [])
+                    ops += [f'del A {o}' for o in others]
+                ops += [f'up A {victim}']
+                for st in then[:-1]:
+                    ops += [st]
+                ops += [then[-1], 'pass A'] + [f'del A {o}' for o in others] + [f'del A {victim}', 'heal']
+                yield {'names': names, 'phens': CONFLICT, 'cache': 1000, 'ops': ops}
+
+
 def fault_scenario(rng, small=None):
     small = rng.random() < 0.5 if small is None else small
     sc = scenario(rng, faults=True, ticks=True)
